@@ -139,11 +139,9 @@ def build(run):
     lem["id"] = "K-C08-c.intent_lexer_step"
     crate4, lemmas4 = C12.kernel(run, "c08prefs")
     l4 = dict(lemmas4[0], id="K-C08-e.set_string_pref")
-    import kani_run as _kr
-    res = _kr.run_all([(crate3, lem["harness"], {"timeout": 900 if run.tier == "quick" else 3000}), (crate4, l4["harness"], {"timeout": 900})])
-    run.crates += [crate3, crate4]
-    run._kani_result(crate3, lem, res[0])
-    run._kani_result(crate4, l4, res[1])
+    lem["timeout"] = 900 if run.tier == "quick" else 3000
+    run.kani(crate3, [lem])
+    run.kani(crate4, [l4], timeout=900)
 
     # ---- K-C08-f: a failing set_mathml leaves the previously set expression installed (recoverability) ---------------------------
     sm = itf.find("fn set_mathml")
@@ -164,6 +162,18 @@ def build(run):
                            claim="set_mathml returns Err => the installed expression is the one from before the call; Ok => the new one")], timeout=300)
 
 
+    # ---- K-C08-k: one navigation command (undo included) never unwraps an empty stack (kernel shared with C11 / C09) --------------------
+    from checks import C11
+    crate9, lemmas9 = C11.kernel(run, "c08nav")
+    l9 = dict(lemmas9["one_rule_application_keeps_invariants"], id="K-C08-k.one_navigation_command_is_total")
+
+    def api_undo_first(vals, out):
+        res = mcprobe([("mathml", "<math><mi id='a'>x</mi><mo id='p'>+</mo><mi id='b'>y</mi></math>"), ("nav", "MoveLastLocation"), ("nav", "MoveNext"), ("nav", "MoveLastLocation"), ("nav", "MoveLastLocation"), "navid"])
+        return any(r[0] == "PANIC" for r in res), {"script": "set_mathml; MoveLastLocation (nothing to undo); MoveNext; MoveLastLocation twice; get_navigation_mathml_id", "results": res[1:]}
+    l9["api"] = api_undo_first
+    run.kani(crate9, [l9], timeout=900)
+    crate8, lemma8 = marker_lemma(run)
+    run.kani(crate8, [lemma8], timeout=600)
     crate7, lemma7 = attach_lemma(run)
     run.kani(crate7, [lemma7], timeout=600)
 
@@ -257,3 +267,60 @@ def attach_lemma(run):
                        role=lambda v, o: "empty-base-mrow-underflow" if "subtract with overflow" in o else "prologue-panic",
                        covers=["scripted element whose base mrow lost all its children reachable", "base mrow with three children reachable"],
                        claim="no panic whatever the base is; an element with no split-marked base is returned unchanged")
+
+
+# ======================================================================================================================
+# K-C08-j: the internal marker attribute data-maybe-chemistry can arrive with the input: reading it must not panic
+MARK_SHIM = r"""
+#[derive(Clone, Copy)] pub struct Element<'a> { attr: Option<&'a str>, is_mrow: bool }
+impl<'a> Element<'a> {
+    fn attribute_value(&self, _n: &str) -> Option<&'a str> { self.attr }
+    fn attribute(&self, _n: &str) -> Option<()> { self.attr.map(|_| ()) }
+    fn set_attribute_value(&self, _n: &str, _v: &str) { }
+}
+fn name(e: &Element) -> &'static str { if e.is_mrow { "mrow" } else { "mi" } }
+fn get_parent<'a>(_e: Element<'a>) -> Element<'a> { Element { attr: None, is_mrow: true } }
+static mut STATE: isize = 0;
+fn likely_chem_state(_e: Element) -> isize { unsafe { STATE } }
+pub struct CanonicalizeContext;
+"""
+
+MARK_HARNESS = r"""
+HARNESS(marker_attribute_from_the_input_is_read_without_panic, 6, [std::string::ToString::to_string => to_string_stub]) {
+    let b: [u8; 3] = [sym::u8(), sym::u8(), sym::u8()];
+    let n = sym::below(4);
+    sym::assume(b[0] >= 0x20 && b[0] < 0x7f && b[1] >= 0x20 && b[1] < 0x7f && b[2] >= 0x20 && b[2] < 0x7f);
+    let value = unsafe { core::str::from_utf8_unchecked(&b[..n]) };             // any printable ASCII string of 0..3 chars: the attribute value as the author wrote it
+    let node = Element { attr: if sym::bool() { Some(value) } else { None }, is_mrow: false };
+    let sibling = Element { attr: None, is_mrow: sym::bool() };
+    unsafe { STATE = sym::below(5) as isize - 1; }
+    cover!(node.attr.is_some() && n == 1 && b[0] == b'x', "non-numeric marker value reachable");
+    cover!(node.attr.is_some() && n == 1 && b[0] == b'2', "numeric marker value reachable");
+    let _ = get_marked_value(node);                                              // must not panic
+    let _ = CanonicalizeContext.is_likely_chemical_state(node, sibling);         // must not panic
+}
+"""
+
+
+def api_marker(vals=None, out=None):
+    res = mcprobe([("mathml", "<math><mrow><mi data-maybe-chemistry='x'>H</mi><mi>Cl</mi></mrow></math>"),
+                   ("mathml", "<math><mrow><mi data-maybe-chemistry=''>Na</mi><mrow><mo>(</mo><mi>s</mi><mo>)</mo></mrow></mrow></math>"), ("mathml", "<math><mi>z</mi></math>")])
+    return any(r[0] not in ("OK", "ERR") for r in res), {"script": "set_mathml(input that already carries data-maybe-chemistry with a non-numeric value)", "results": res}
+
+
+def marker_lemma(run):
+    c = slicer.Source.get("src/canonicalize.rs")
+    ch = slicer.Source.get("src/chemistry.rs")
+    f1 = c.find("impl CanonicalizeContext", "fn is_likely_chemical_state")
+    f2 = ch.find("fn get_marked_value")
+    en = c.find("enum FunctionNameCertainty")
+    mk = ch.find("static MAYBE_CHEMISTRY")
+    run.uses(f1, f2, en, mk)
+    body = prelude.TOSTRING_STUB + MARK_SHIM + mk.text + "\n" + en.text + "\nimpl CanonicalizeContext {\n" + f1.text + "\n}\n" + f2.text + MARK_HARNESS
+    crate = kani_run.Crate("c08marker", body)
+    run.bound("K-C08-j", "get_marked_value (chemistry.rs) and is_likely_chemical_state (canonicalize.rs) verbatim, for a data-maybe-chemistry value that is any printable-ASCII string of 0..3 chars, sibling mrow or not, state likelihood -1..3")
+    run.assume("sxd_document element reduced to (marker attribute value, is-mrow); likely_chem_state replaced by an arbitrary value; integer formatting stubbed")
+    return crate, dict(id="K-C08-j.marker_attribute_from_input", harness="marker_attribute_from_the_input_is_read_without_panic", api=lambda v, o: api_marker(),
+                       role=lambda v, o: "non-numeric-marker-attribute-unwrap",
+                       covers=["non-numeric marker value reachable", "numeric marker value reachable"],
+                       claim="no value of the marker attribute makes the two readers panic")
